@@ -122,5 +122,6 @@ func OracleC02(tr *Trace) Verdict {
 			}
 		}
 	}
+	tr.markPlainDeleteConsequences(&v, "C02")
 	return v
 }
